@@ -180,8 +180,9 @@ Definition windexed (W : world) (d : nat) : bool := snd (nth d W (Node 0 [], fal
 Definition lnode_eqb (a b : lnode) : bool := (fst a =? fst b) && rnode_eqb (snd a) (snd b).
 Definition is_doc (n : lnode) : bool := match snd n with [] => true | _ => false end.
 Definition key (W : world) (n : lnode) : nat := index (wtree W (fst n)) (snd n).
-Definition getIndex (W : world) (n : lnode) : nat := S (key W n).    (* document node 1, then 2, 3, ... *)
 Definition isIndexed (W : world) (n : lnode) : bool := windexed W (fst n).
+(* indexed document: document node 1, then 2, 3, ... in pre-order; otherwise the navigator's default 0 *)
+Definition getIndex (W : world) (n : lnode) : nat := if isIndexed W n then S (key W n) else 0.
 
 (* DOMServices::isNodeAfter / XalanSourceTreeDOMSupport::isNodeAfter, nodes of one document *)
 Definition isNodeAfter (W : world) (n1 n2 : lnode) : bool :=
@@ -268,7 +269,7 @@ Definition addNodeInDocOrder (W : world) (l : list lnode) (n : lnode) : option (
       end
   end.
 
-Definition add (W : world) (acc : option (list lnode)) (n : lnode) : option (list lnode) :=
+Definition add_step (W : world) (acc : option (list lnode)) (n : lnode) : option (list lnode) :=
   match acc with None => None | Some l => addNodeInDocOrder W l n end.
 
 Inductive order := Unknown | DocOrder | RevOrder.
@@ -279,16 +280,16 @@ Record nlist := NL { items : list lnode; ord : order }.
 Definition addNodesInDocOrder (W : world) (dst src : nlist) : option nlist :=
   let r :=
     match ord src with
-    | Unknown => fold_left (add W) (items src) (Some (items dst))
+    | Unknown => fold_left (add_step W) (items src) (Some (items dst))
     | DocOrder =>
       match items dst with
       | [] => Some (items src)
-      | _ :: _ => fold_left (add W) (items src) (Some (items dst))
+      | _ :: _ => fold_left (add_step W) (items src) (Some (items dst))
       end
     | RevOrder =>
       match items dst with
       | [] => Some (rev (items src))
-      | _ :: _ => fold_left (add W) (rev (items src)) (Some (items dst))
+      | _ :: _ => fold_left (add_step W) (rev (items src)) (Some (items dst))
       end
     end in
   match r with None => None | Some l => Some (NL l (ord dst)) end.
@@ -340,10 +341,18 @@ Fixpoint strictly_sorted (ks : list nat) : bool :=
 
 Definition sorted (W : world) (l : list lnode) : bool := strictly_sorted (map (key W) l).
 
-(* honest producer: set the flag that is true of the list (used by the drivers) *)
+(* honest producer (used by the drivers): set the flag that is true of the list, documents ordered by their
+   number in the case; on one document this is [sorted] *)
+Definition lnode_ltb (W : world) (a b : lnode) : bool :=
+  (fst a <? fst b) || ((fst a =? fst b) && (key W a <? key W b)).
+Fixpoint psorted (W : world) (l : list lnode) : bool :=
+  match l with
+  | [] => true
+  | a :: r => match r with [] => true | b :: _ => lnode_ltb W a b && psorted W r end
+  end.
 Definition nl_flagIfSorted (W : world) (l : nlist) : nlist :=
-  if sorted W (items l) then NL (items l) DocOrder
-  else if sorted W (rev (items l)) then NL (items l) RevOrder
+  if psorted W (items l) then NL (items l) DocOrder
+  else if psorted W (rev (items l)) then NL (items l) RevOrder
   else l.
 
 (* guards *)
